@@ -142,7 +142,7 @@ fn conforming(r: &mut Rng) -> Vec<(String, JV)> {
     let nunk = *r.pick(&[0u64, 0, 1, 1, 2, 3]);
     for _ in 0..nunk {
         let k = if r.chance(1, 3) {
-            r.pick(&["state", "Error", "error ", "error_descriptio", "errors", "access_token", "token_type", "", "error_uri\0", "é"]).to_string()
+            (if r.chance(1, 2) { *r.pick(crate::ops::common::ALIAS_LIKE_MEMBER_NAMES) } else { *r.pick(&["state", "Error", "error ", "error_descriptio", "errors", "access_token", "token_type", "", "error_uri\0", "é"]) }).to_string()
         } else {
             gen::mixed(r)
         };
